@@ -1400,6 +1400,9 @@ class Slave(logging_utils.LoggableMixin):
                 except Exception as e:
                     self.error('failed to provision %s value: %s', port, e)
 
+                    # The device has not taken the value: it must no longer pass for the last known remote value
+                    port.forget_provisioning_value()
+
                 provisioned = True
 
             port.clear_provisioning()
